@@ -79,4 +79,42 @@ theorem foldl_modT_bufs {γ} (xs : List γ) (idx : γ → Nat) (f : γ → Tens 
   | nil => rfl
   | cons c cs ih => simp only [List.foldl_cons]; rw [ih]; rfl
 
+/-- reading `.grad` only ever refreshes `_view_grad` caches -/
+theorem gradPropObj_frame (fuel : Nat) : ∀ (h : Heap) (t : Nat),
+    (gradPropObj fuel h t).1.bufs = h.bufs ∧ (gradPropObj fuel h t).1.next = h.next ∧
+    (gradPropObj fuel h t).1.ops = h.ops ∧
+    (∀ x, ((gradPropObj fuel h t).1.t x).creator = (h.t x).creator ∧ ((gradPropObj fuel h t).1.t x).data = (h.t x).data ∧
+      ((gradPropObj fuel h t).1.t x).const = (h.t x).const ∧ ((gradPropObj fuel h t).1.t x).base = (h.t x).base ∧
+      ((gradPropObj fuel h t).1.t x).ops = (h.t x).ops ∧ ((gradPropObj fuel h t).1.t x).vchildren = (h.t x).vchildren ∧
+      ((gradPropObj fuel h t).1.t x).grad = (h.t x).grad ∧ ((gradPropObj fuel h t).1.t x).gradObj = (h.t x).gradObj) := by
+  induction fuel with
+  | zero => intro h t; exact ⟨rfl, rfl, rfl, fun _ => ⟨rfl, rfl, rfl, rfl, rfl, rfl, rfl, rfl⟩⟩
+  | succ fuel ih =>
+    intro h t
+    unfold gradPropObj
+    simp only
+    split
+    · exact ⟨rfl, rfl, rfl, fun _ => ⟨rfl, rfl, rfl, rfl, rfl, rfl, rfl, rfl⟩⟩
+    · split
+      · exact ⟨rfl, rfl, rfl, fun _ => ⟨rfl, rfl, rfl, rfl, rfl, rfl, rfl, rfl⟩⟩
+      · split
+        · exact ⟨rfl, rfl, rfl, fun _ => ⟨rfl, rfl, rfl, rfl, rfl, rfl, rfl, rfl⟩⟩
+        · split
+          · exact ⟨rfl, rfl, rfl, fun _ => ⟨rfl, rfl, rfl, rfl, rfl, rfl, rfl, rfl⟩⟩
+          · split
+            · exact ⟨rfl, rfl, rfl, fun _ => ⟨rfl, rfl, rfl, rfl, rfl, rfl, rfl, rfl⟩⟩
+            · split
+              · exact ⟨rfl, rfl, rfl, fun _ => ⟨rfl, rfl, rfl, rfl, rfl, rfl, rfl, rfl⟩⟩
+              · rename_i f _
+                obtain ⟨b, n, o, tt⟩ := ih h ((h.op f).vars.getD 0 0)
+                refine ⟨b, n, o, fun x => ?_⟩
+                by_cases e : x = t
+                · subst e
+                  simp only [t_modT_self]
+                  exact tt x
+                · show (((gradPropObj fuel h ((h.op f).vars.getD 0 0)).1.modT t _).t x).creator = _ ∧ _
+                  rw [t_modT_ne _ _ _ _ e]
+                  exact tt x
+
+
 end MG.Eng
